@@ -218,7 +218,7 @@ PROPS = {
                    norm=tracenorm.normalise_filter),
     "C36": graphprop("Entities", "Entities", ["MC_Entities.cfg"],
                      ["delete:not-empty", "delete:topic-in-use", "delete:already-deleted", "use:deleted-entity", "delete-contained",
-                      "delete:wrong-parent", "create:parent-deleted"],
+                      "delete:wrong-parent", "create:parent-deleted", "delete:topic-related-to-content-filtered-topic"],
                      "entity tree driven through the public async API inside the deterministic simulation (no network traffic needed)"),
     "C35": graphprop("Entities", "Entities", ["MC_Entities_C35.cfg", "MC_Entities_C35w.cfg", "MC_Entities_C35r.cfg"], ["create", "delete"],
                      "entity tree driven through the async API after warming the 8-bit publisher/subscriber counters to 254"),
